@@ -13,7 +13,7 @@ namespace Skel
 def CloseConnection : List String := ["delete", "RemoveControlConnection", "RemoveTunnelConnection", "connStateStore.UnregisterConnection"]
 def CreateConnection : List String := ["streamMgr.CreateStream", "connLock.Lock", "connLock.Unlock"]
 def HandlersComponent_Initialize : List String := ["session.NewConnectionStateStore", "SessionMgr.SetConnectionStateStore", "session.NewCrossNodePool", "SessionMgr.SetCrossNodePool"]
-def Hybrid_Get : List String := []
+def Hybrid_Get : List String := ["h.getCategory", "h.getCacheForKey", "cache.Get", "h.getSharedPersistent", "cache.Get", "h.persistent.Get"]
 def Hybrid_getCacheForKey : List String := ["h.isShared"]
 def Hybrid_getCategory : List String := ["h.isSharedPersistent", "h.isShared", "h.isPersistent"]
 def Hybrid_setShared : List String := ["h.getCacheForKey", "cache.Set"]
